@@ -90,7 +90,7 @@ PROPS = {
         "ref": '§5 C09',
         "proofs": ['Bmc.Proofs.C09'],
         "scenarios": ['send', 'slsend', 'udp'],
-        "rule": 'send: exhaustive reply scripts over the 21-letter alphabet {final, error code, busy C0, timeout C3, reply to another command (any completion code, near-miss command numbers, other group body / OEM enterprise), authenticated-flagged forgery without any trailer, authentic response cut at the payload end, AuthCode cut short or extended, unauthenticated forgery with foreign/own session ID, authentic but foreign session, flipped AuthCode, wrong key, flipped ciphertext, bad confidentiality pad, authentic unencrypted, garbage, non-message packet, runt message, 7-byte response, lost} to depth 3 (thorough: depth 3 exhaustively + a quarter of depth 4) on suite 3 and one level less on four more suites, random operation (incl. group/OEM NetFns), LUN and request body of 0..39 bytes per script, every request length 0..63, counters at 0/1/2^31-1/2^32-3, unserialisable requests. Non-trivial = script with a non-final outcome before its end; distinct = distinct op line. slsend: exhaustive scripts over 11 letters to depth 3 (thorough 4).',
+        "rule": 'send: exhaustive reply scripts over the 22-letter alphabet {final, error code, one bit of the RMCP header flipped, busy C0, timeout C3, reply to another command (any completion code, near-miss command numbers, other group body / OEM enterprise), authenticated-flagged forgery without any trailer, authentic response cut at the payload end, AuthCode cut short or extended, unauthenticated forgery with foreign/own session ID, authentic but foreign session, flipped AuthCode, wrong key, flipped ciphertext, bad confidentiality pad, authentic unencrypted, garbage, non-message packet, runt message, 7-byte response, lost} to depth 3 (thorough: depth 3 exhaustively + a quarter of depth 4) on suite 3 and one level less on four more suites, random operation (incl. group/OEM NetFns), LUN and request body of 0..39 bytes per script, every request length 0..63, counters right below 2^16, 2^31 and the 32-bit wrap (ops that wrap are class M with a no-reuse verdict), unserialisable requests. Non-trivial = script with a non-final outcome before its end; distinct = distinct op line. slsend: exhaustive scripts over 11 letters to depth 3 (thorough 4).',
         "modelled": ["in-session and session-less retry loops, layer (re)initialisation, LayersDecoder chain, sequence counter: hand models tied by byte-exact correspondence"],
         "assumptions": ["a Send that fails before anything leaves the socket is outside the outcome alphabet (it still consumes a number, which is the safe choice)"],
     },
@@ -101,7 +101,7 @@ PROPS = {
         "ref": '§5 C10',
         "proofs": ['Bmc.Proofs.C10'],
         "scenarios": ['send', 'slsend', 'udp'],
-        "rule": 'send: exhaustive reply scripts over the 21-letter alphabet {final, error code, busy C0, timeout C3, reply to another command (any completion code, near-miss command numbers, other group body / OEM enterprise), authenticated-flagged forgery without any trailer, authentic response cut at the payload end, AuthCode cut short or extended, unauthenticated forgery with foreign/own session ID, authentic but foreign session, flipped AuthCode, wrong key, flipped ciphertext, bad confidentiality pad, authentic unencrypted, garbage, non-message packet, runt message, 7-byte response, lost} to depth 3 (thorough: depth 3 exhaustively + a quarter of depth 4) on suite 3 and one level less on four more suites, random operation (incl. group/OEM NetFns), LUN and request body of 0..39 bytes per script, every request length 0..63, counters at 0/1/2^31-1/2^32-3, unserialisable requests. Non-trivial = script with a non-final outcome before its end; distinct = distinct op line. slsend: exhaustive scripts over 11 letters to depth 3 (thorough 4).',
+        "rule": 'send: exhaustive reply scripts over the 22-letter alphabet {final, error code, one bit of the RMCP header flipped, busy C0, timeout C3, reply to another command (any completion code, near-miss command numbers, other group body / OEM enterprise), authenticated-flagged forgery without any trailer, authentic response cut at the payload end, AuthCode cut short or extended, unauthenticated forgery with foreign/own session ID, authentic but foreign session, flipped AuthCode, wrong key, flipped ciphertext, bad confidentiality pad, authentic unencrypted, garbage, non-message packet, runt message, 7-byte response, lost} to depth 3 (thorough: depth 3 exhaustively + a quarter of depth 4) on suite 3 and one level less on four more suites, random operation (incl. group/OEM NetFns), LUN and request body of 0..39 bytes per script, every request length 0..63, counters right below 2^16, 2^31 and the 32-bit wrap (ops that wrap are class M with a no-reuse verdict), unserialisable requests. Non-trivial = script with a non-final outcome before its end; distinct = distinct op line. slsend: exhaustive scripts over 11 letters to depth 3 (thorough 4).',
         "modelled": ["in-session and session-less retry loops, layer (re)initialisation, LayersDecoder chain, sequence counter: hand models tied by byte-exact correspondence"],
         "assumptions": ["a Send that fails before anything leaves the socket is outside the outcome alphabet (it still consumes a number, which is the safe choice)"],
     },
@@ -113,7 +113,7 @@ PROPS = {
         "ref": '§5 C11',
         "proofs": ['Bmc.Proofs.C11', "Bmc.Proofs.C11.Match"],
         "scenarios": ['send', 'slsend', 'api', 'udp:sendu,slsendu,sendb,slsendb'],
-        "rule": 'send: exhaustive reply scripts over the 21-letter alphabet {final, error code, busy C0, timeout C3, reply to another command (any completion code, near-miss command numbers, other group body / OEM enterprise), authenticated-flagged forgery without any trailer, authentic response cut at the payload end, AuthCode cut short or extended, unauthenticated forgery with foreign/own session ID, authentic but foreign session, flipped AuthCode, wrong key, flipped ciphertext, bad confidentiality pad, authentic unencrypted, garbage, non-message packet, runt message, 7-byte response, lost} to depth 3 (thorough: depth 3 exhaustively + a quarter of depth 4) on suite 3 and one level less on four more suites, random operation (incl. group/OEM NetFns), LUN and request body of 0..39 bytes per script, every request length 0..63, counters at 0/1/2^31-1/2^32-3, unserialisable requests. Non-trivial = script with a non-final outcome before its end; distinct = distinct op line. slsend: exhaustive scripts over 11 letters to depth 3 (thorough 4).'
+        "rule": 'send: exhaustive reply scripts over the 22-letter alphabet {final, error code, one bit of the RMCP header flipped, busy C0, timeout C3, reply to another command (any completion code, near-miss command numbers, other group body / OEM enterprise), authenticated-flagged forgery without any trailer, authentic response cut at the payload end, AuthCode cut short or extended, unauthenticated forgery with foreign/own session ID, authentic but foreign session, flipped AuthCode, wrong key, flipped ciphertext, bad confidentiality pad, authentic unencrypted, garbage, non-message packet, runt message, 7-byte response, lost} to depth 3 (thorough: depth 3 exhaustively + a quarter of depth 4) on suite 3 and one level less on four more suites, random operation (incl. group/OEM NetFns), LUN and request body of 0..39 bytes per script, every request length 0..63, counters right below 2^16, 2^31 and the 32-bit wrap (ops that wrap are class M with a no-reuse verdict), unserialisable requests. Non-trivial = script with a non-final outcome before its end; distinct = distinct op line. slsend: exhaustive scripts over 11 letters to depth 3 (thorough 4).'
           " api: every high-level call x {3 suites in session, session-less}: type-directed arguments (0, max, walking bits, out-of-width, random) x reply scripts {conforming body in every optional-tail form, non-zero code with / without body, temporary code then final, reply to another command first, lost, empty / truncated at every length / extended / random body} + all ordered pairs of calls on ONE connection with the second reply shorter than the first; class P = conforming scripts; model-independent verdict: result = fresh decode by the real decoder of the first acceptable final response (error unless code 00h), every transmitted datagram opens under the reference BMC / parser to the specification's command with the caller's arguments.",
         "modelled": ["in-session and session-less retry loops, layer (re)initialisation, LayersDecoder chain, sequence counter: hand models tied by byte-exact correspondence"],
         "assumptions": ["a Send that fails before anything leaves the socket is outside the outcome alphabet (it still consumes a number, which is the safe choice)"],
@@ -125,7 +125,7 @@ PROPS = {
         "ref": '§5 C04',
         "proofs": ['Bmc.Proofs.C04'],
         "scenarios": ['send', 'dec:v2none,v2sha1,v2md5,v2sha256,aes', 'udp:sendu,sendb'],
-        "rule": 'send: exhaustive reply scripts over the 21-letter alphabet {final, error code, busy C0, timeout C3, reply to another command (any completion code, near-miss command numbers, other group body / OEM enterprise), authenticated-flagged forgery without any trailer, authentic response cut at the payload end, AuthCode cut short or extended, unauthenticated forgery with foreign/own session ID, authentic but foreign session, flipped AuthCode, wrong key, flipped ciphertext, bad confidentiality pad, authentic unencrypted, garbage, non-message packet, runt message, 7-byte response, lost} to depth 3 (thorough: depth 3 exhaustively + a quarter of depth 4) on suite 3 and one level less on four more suites, random operation (incl. group/OEM NetFns), LUN and request body of 0..39 bytes per script, every request length 0..63, counters at 0/1/2^31-1/2^32-3, unserialisable requests. Non-trivial = script with a non-final outcome before its end; distinct = distinct op line.',
+        "rule": 'send: exhaustive reply scripts over the 22-letter alphabet {final, error code, one bit of the RMCP header flipped, busy C0, timeout C3, reply to another command (any completion code, near-miss command numbers, other group body / OEM enterprise), authenticated-flagged forgery without any trailer, authentic response cut at the payload end, AuthCode cut short or extended, unauthenticated forgery with foreign/own session ID, authentic but foreign session, flipped AuthCode, wrong key, flipped ciphertext, bad confidentiality pad, authentic unencrypted, garbage, non-message packet, runt message, 7-byte response, lost} to depth 3 (thorough: depth 3 exhaustively + a quarter of depth 4) on suite 3 and one level less on four more suites, random operation (incl. group/OEM NetFns), LUN and request body of 0..39 bytes per script, every request length 0..63, counters right below 2^16, 2^31 and the 32-bit wrap (ops that wrap are class M with a no-reuse verdict), unserialisable requests. Non-trivial = script with a non-final outcome before its end; distinct = distinct op line.',
         "modelled": ["in-session and session-less retry loops, layer (re)initialisation, LayersDecoder chain, sequence counter: hand models tied by byte-exact correspondence"],
         "assumptions": ["a Send that fails before anything leaves the socket is outside the outcome alphabet (it still consumes a number, which is the safe choice)"],
     },
@@ -136,7 +136,7 @@ PROPS = {
         "ref": '§5 C03',
         "proofs": ['Bmc.Proofs.C03'],
         "scenarios": ['send', 'udp:sendu,sendb'],
-        "rule": 'send: exhaustive reply scripts over the 21-letter alphabet {final, error code, busy C0, timeout C3, reply to another command (any completion code, near-miss command numbers, other group body / OEM enterprise), authenticated-flagged forgery without any trailer, authentic response cut at the payload end, AuthCode cut short or extended, unauthenticated forgery with foreign/own session ID, authentic but foreign session, flipped AuthCode, wrong key, flipped ciphertext, bad confidentiality pad, authentic unencrypted, garbage, non-message packet, runt message, 7-byte response, lost} to depth 3 (thorough: depth 3 exhaustively + a quarter of depth 4) on suite 3 and one level less on four more suites, random operation (incl. group/OEM NetFns), LUN and request body of 0..39 bytes per script, every request length 0..63, counters at 0/1/2^31-1/2^32-3, unserialisable requests. Non-trivial = script with a non-final outcome before its end; distinct = distinct op line.',
+        "rule": 'send: exhaustive reply scripts over the 22-letter alphabet {final, error code, one bit of the RMCP header flipped, busy C0, timeout C3, reply to another command (any completion code, near-miss command numbers, other group body / OEM enterprise), authenticated-flagged forgery without any trailer, authentic response cut at the payload end, AuthCode cut short or extended, unauthenticated forgery with foreign/own session ID, authentic but foreign session, flipped AuthCode, wrong key, flipped ciphertext, bad confidentiality pad, authentic unencrypted, garbage, non-message packet, runt message, 7-byte response, lost} to depth 3 (thorough: depth 3 exhaustively + a quarter of depth 4) on suite 3 and one level less on four more suites, random operation (incl. group/OEM NetFns), LUN and request body of 0..39 bytes per script, every request length 0..63, counters right below 2^16, 2^31 and the 32-bit wrap (ops that wrap are class M with a no-reuse verdict), unserialisable requests. Non-trivial = script with a non-final outcome before its end; distinct = distinct op line.',
         "modelled": ["in-session and session-less retry loops, layer (re)initialisation, LayersDecoder chain, sequence counter: hand models tied by byte-exact correspondence"],
         "assumptions": ["a Send that fails before anything leaves the socket is outside the outcome alphabet (it still consumes a number, which is the safe choice)"],
     },
